@@ -196,6 +196,13 @@ def r5_limits(run, F):
            "MAX_NUM_TOKENS=%d must fit the 24-bit token ids of parse nodes" % mnt)
     run.ob("R5-CONST", "MAX_NUM_PAYLOADS<=2^24", mnp <= 2 ** 24, "src/delta/lexer/tokens.rs",
            "payload ids are stored in 24 bits (value_type | id << 8)")
+    # node ids are U24 as well: the largest node buffer (C + K * tokens, read from ParseTree::empty) must stay addressable
+    K, C = capacity_multiplier(run, F)
+    mnn = F.const_value("delta::parser::parse_node::MAX_NUM_NODES")
+    run.ob("R5-CONST", "C + K*MAX_NUM_TOKENS <= MAX_NUM_NODES", C + K * mnt <= mnn, "src/delta/lexer/tokens.rs / src/delta/parser/parse_node.rs",
+           "the node buffer can hold %d + %d * %d = %d nodes but node ids are addressed below MAX_NUM_NODES = %d: beyond that U24::new "
+           "asserts in debug builds and wraps in release builds (node references then point at unrelated nodes)" % (C, K, mnt, C + K * mnt, mnn),
+           sample={"K": K, "C": C, "MAX_NUM_TOKENS": mnt, "MAX_NUM_NODES": mnn})
     # lex(): the length comparison guards lex_source_into_tokens and maps to TooManySourceBytes
     b = F.body("delta::lexer::lex")
     cfg = mirq.CFG(b)
